@@ -45,6 +45,7 @@ func (fr *Frame) calleeKey(c *ssa.CallCommon) (key string, fn *ssa.Function) {
 func (fr *Frame) doCall(st *State, instr ssa.Value, c *ssa.CallCommon, pos token.Pos) []Term {
 	fc := fr.fc
 	if b, ok := c.Value.(*ssa.Builtin); ok {
+		fr.atCall(st, "builtin."+b.Name(), pos)
 		return fr.builtin(st, b, c, pos)
 	}
 	var args []Term
@@ -59,6 +60,9 @@ func (fr *Frame) doCall(st *State, instr ssa.Value, c *ssa.CallCommon, pos token
 	}
 	key, fn := fr.calleeKey(c)
 	sig := c.Signature()
+	if key != "" {
+		fr.atCall(st, key, pos)
+	}
 
 	// closure call: resolve statically if the value is a known closure
 	if key == "" {
@@ -72,6 +76,12 @@ func (fr *Frame) doCall(st *State, instr ssa.Value, c *ssa.CallCommon, pos token
 		return []Term{args[0]}
 	}
 	spec := fc.w.specs.Funcs[key]
+	if spec == nil {
+		// wildcard contract for all methods of a type: pkg.Type.*
+		if i := strings.LastIndex(key, "."); i > 0 {
+			spec = fc.w.specs.Funcs[key[:i]+".*"]
+		}
+	}
 	if spec == nil && fn != nil && fn.Pkg == nil && fn.Object() != nil && fn.Object().Pkg() != nil {
 		// external function: contract under its own package name
 		spec = fc.w.specs.Funcs[fn.Object().Pkg().Name()+"."+strings.TrimPrefix(key, fn.Object().Pkg().Name()+".")]
@@ -87,6 +97,40 @@ func (fr *Frame) doCall(st *State, instr ssa.Value, c *ssa.CallCommon, pos token
 		return fr.inlineCall(st, fn, nil, args, nil, pos)
 	}
 	return fr.unknownCall(st, key, sig, fn, pos)
+}
+
+// atCall checks the call-site preconditions ("atcall callee@n requires ...") that the
+// contract of the function under verification attaches to its n-th call of callee.
+func (fr *Frame) atCall(st *State, key string, pos token.Pos) {
+	fc := fr.fc
+	fr.callCount["at:"+key]++
+	if fr.spec == nil || len(fr.spec.AtCalls) == 0 {
+		return
+	}
+	ord := fr.callCount["at:"+key]
+	sk := shortKey(key)
+	for _, name := range []string{fmt.Sprintf("%s@%d", sk, ord), fmt.Sprintf("%s@*", sk)} {
+		cls := fr.spec.AtCalls[name]
+		if len(cls) == 0 {
+			// also allow the bare method name: Lock@1
+			if i := strings.LastIndex(sk, "."); i >= 0 {
+				cls = fr.spec.AtCalls[strings.Replace(name, sk, sk[i+1:], 1)]
+			}
+		}
+		for k, cl := range cls {
+			env := &Env{fc: fc, fr: fr, st: st, old: fr.top().entry, vars: map[string]Term{}, pkgName: fr.fn.Pkg.Pkg.Name()}
+			t, err := fc.evalGoal(env, cl)
+			if err != nil {
+				fc.unsupp(pos, "atcall %s: %v", name, err)
+				continue
+			}
+			on := fmt.Sprintf("atcall.%s.%d", strings.Replace(name, "@*", "@all", 1), k+1)
+			if cl.Label != "" {
+				on = fmt.Sprintf("atcall.%s.%s", strings.Replace(name, "@*", "@all", 1), cl.Label)
+			}
+			fc.addObligation(st, "typestate", fr.oblName(on), t, pos, cl.Src)
+		}
+	}
 }
 
 func autoInlinable(fn *ssa.Function) bool {
@@ -664,7 +708,13 @@ func (fc *FnCtx) instrWrites(in ssa.Instruction, promoted map[*ssa.Alloc]bool, o
 			fn = mc.Fn.(*ssa.Function)
 			key = funcKey(fn)
 		}
-		if spec := fc.w.specs.Funcs[key]; spec != nil && spec.HasMod {
+		wspec := fc.w.specs.Funcs[key]
+		if wspec == nil {
+			if i := strings.LastIndex(key, "."); i > 0 {
+				wspec = fc.w.specs.Funcs[key[:i]+".*"]
+			}
+		}
+		if spec := wspec; spec != nil && spec.HasMod {
 			cs, a := fc.expandModifies(spec)
 			for _, c := range cs {
 				out[c] = true
@@ -684,7 +734,7 @@ func (fc *FnCtx) instrWrites(in ssa.Instruction, promoted map[*ssa.Alloc]bool, o
 		if key != "" && knownPure(key) {
 			return false
 		}
-		if spec := fc.w.specs.Funcs[key]; spec != nil && spec.Trusted {
+		if spec := wspec; spec != nil && spec.Trusted {
 			return false
 		}
 		return true
